@@ -532,7 +532,7 @@ func checkSnapshot(run *vlib.Run, s *chainsim.Sim, b []byte) bool {
 			got[op] = refchain.Coin{Value: o.Value, Script: append([]byte{}, o.PKScr...), Height: ur.InBlock, Coinbase: ur.Coinbase}
 		}
 	}
-	if d := chainsim.DiffUTXO(got, want); d != "" {
+	if d := chainsim.DiffNodeUTXO(got, want); d != "" {
 		wit["diff"] = d
 		run.Violation("snapshot/content-differs-from-header-block", "a UTXO.db visible under its final name does not hold the UTXO set of the block named in its header: "+d, wit)
 		return false
@@ -599,6 +599,10 @@ func Main() {
 			args = append(args, "slow")
 		}
 		env := []string{fmt.Sprintf("GOMAXPROCS=%d", j.procs), fmt.Sprintf("VERIF_YIELD=%d", j.seed), "GORACE=halt_on_error=0 exitcode=66"}
+		if i%3 == 1 {
+			env = append(env, "VERIF_PURGE=1") // utxo.UTXO_PURGE_UNSPENDABLE, as a freshly configured client runs
+			run.Inc("histories_with_purge_unspendable")
+		}
 		res := vlib.RunChild(bin, args, env, nil, 40*time.Minute)
 		desc := map[string]interface{}{"args": args, "GOMAXPROCS": j.procs, "race_build": j.race, "VERIF_YIELD": j.seed}
 		mu.Lock()
